@@ -36,7 +36,7 @@ def main():
         r = sh("git -C %s apply %s" % (wt, patch))
         if r.returncode:
             # leave out files whose hunks no longer apply (repaired in /repo after the patch was written)
-            files = [l.split(" b/")[1] for l in open(patch) if l.startswith("diff --git ")]
+            files = [l.split(" b/")[1].strip() for l in open(patch) if l.startswith("diff --git ")]
             bad = [f for f in files if sh("git -C %s apply --include=%s %s" % (wt, f, patch)).returncode]
             sh("git -C %s checkout -- ." % wt)
             ex = " ".join("--exclude=%s" % f for f in bad)
